@@ -250,13 +250,51 @@ def r03_4(ck: Check) -> None:
     rule_uto_apply(ck, "R03.4")
 
 
+def _at_head_view(ck: Check, name: str):   # type: ignore
+    """value of `cs.at_head.<name>` as a term over at_head's `self`: the view object is whatever at_head returns (a class nested in the
+    property that closes over `self`, or a class that is given the state and keeps it in an attribute)"""
+    from ..engine.match import function_value
+    from ..engine.terms import substitute
+    ah = ck.summ(CS + ".at_head", 0)
+    v = function_value(ah)
+    if v is None or v[0] != "call" or v[1][0] != "g" or v[1][1] not in ck.repo.classes:
+        raise AnalysisError("CoinState.at_head does not return an instance of a repository class: %s" % (show(v) if v is not None else None))
+    K = v[1][1]
+    prop = ck.repo.find_method(K, name) or ck.repo.functions.get(K + "." + name)
+    if prop is None:
+        raise AnalysisError("%s has no attribute %s" % (short(K), name))
+    ps = ck.summ(prop.qualname, 0)
+    pv = function_value(ps)
+    if pv is None:
+        raise AnalysisError("%s.%s returns nothing" % (short(K), name))
+    me = ("v", ah.fi.params[0])
+    if K.startswith(CS + ".at_head."):
+        return ps, substitute(pv, {("v", "self"): me}) if ah.fi.params[0] != "self" else pv, me
+    init = ck.repo.find_method(K, "__init__")
+    m = {}
+    if init is not None:
+        isum = ck.summ(init.qualname, 0)
+        iparams = init.params[1:]
+        given = dict(zip(iparams, v[2]))
+        given.update({k_: a for k_, a in v[3] if isinstance(k_, str)})
+        for e in isum.events:
+            if e.kind == "store" and e.term[0] == "a" and e.term[1] == ("v", init.params[0]) and e.value is not None and e.value[0] == "v" \
+                    and e.value[1] in given:
+                m[("a", ("v", prop.params[0]), e.term[2])] = given[e.value[1]]
+    return ps, substitute(pv, m), me
+
+
 def r03_5(ck: Check) -> None:
-    base = CS + ".at_head.AtHead."
+    from ..engine.match import same_value
     for name, attr in (("unspent_transaction_outs", "unspent_transaction_outs_by_hash"), ("block_by_height", "block_by_height_by_hash"),
                        ("public_key_balances", "public_key_balances_by_hash")):
-        s = ck.summ(base + name, 0)
-        sp = Spec(s, ("inner",), extra={"self": ("v", "self")})
-        require_return(ck, "R03.5", s, sp, "self.%s[self.current_chain_hash]" % attr, "reported at-head view = the per-block view stored under the head id")
+        ps, got, me = _at_head_view(ck, name)
+        want = ("s", ("a", me, attr), ("a", me, "current_chain_hash"))
+        construct = "state.at_head.%s = state.%s[state.current_chain_hash]" % (name, attr)
+        if same_value(got, want):
+            ck.ok("R03.5", construct, "reported at-head view = the per-block view stored under the head id", ps.fi.loc)
+        else:
+            ck.violated("R03.5", construct, "reported at-head view = the per-block view stored under the head id — it is %s" % show(got)[:200], ps.fi.loc)
     from .c15 import r15_5
     s = ck.summ("skepticoin.wallet.Wallet.get_balance", 0)
     require_return(ck, "R03.5", s, Spec(s, ("self", "cs")),
